@@ -72,11 +72,18 @@ def observe(arg):
                 out += _rel(t, T)
             elif kind == "conv":
                 E, lam, v = t["E"], t["lam"], t["v"]
+                # the converters leave the arrays they are given alone
+                Earr, larr = np.array([E, 2.0 * E, 0.5 * E]), np.array([lam, 2.0 * lam])
+                keepE, keepl = Earr.copy(), larr.copy()
+                w1 = nsf.neutron_wavelength(Earr)
+                e1 = nsf.neutron_energy(larr)
+                kept = bool((Earr == keepE).all() and (larr == keepl).all())
                 out.append({"ev": "conv", "id": t["id"], "E": dec.to_dec(E), "lam": dec.to_dec(lam), "v": dec.to_dec(v),
                             "lam_of_E": dec.to_dec(float(nsf.neutron_wavelength(E))),
                             "E_back": dec.to_dec(float(nsf.neutron_energy(nsf.neutron_wavelength(E)))),
                             "E_of_lam": dec.to_dec(float(nsf.neutron_energy(lam))),
-                            "lam_of_v": dec.to_dec(float(nsf.neutron_wavelength_from_velocity(v)))})
+                            "lam_of_v": dec.to_dec(float(nsf.neutron_wavelength_from_velocity(v))),
+                            "args_kept": kept, "lam_of_E_vec": dec.to_dec(float(w1[0])), "E_of_lam_vec": dec.to_dec(float(e1[0]))})
             elif kind == "anchor":
                 out.append({"ev": "anchor", "id": t["id"],
                             "lam_of_2200": dec.to_dec(float(nsf.neutron_wavelength_from_velocity(2200.0))),
@@ -214,6 +221,17 @@ def _rel(t, T):
         b = call(g0, k, wavelength=lam)
         ev["k"] = dec.to_dec(k)
         ev["again"] = out7(call(g0, wavelength=lam))       # the first call repeated after the scaled one
+    elif rel == "cellmul":
+        # k * F of a Formula that carries its density: the same material, whatever k (no density keyword at all)
+        a = P.neutron_scattering(g, wavelength=lam)
+        ev["a"] = out7(a)
+        b = P.neutron_scattering(t["k"] * g, wavelength=lam)
+    elif rel == "respell":
+        # the same groups written with '+' or a blank between them
+        fa, fb = P.formula(t["texts"][0]), P.formula(t["texts"][1])
+        a = P.neutron_scattering(fa, density=t["density"], wavelength=lam)
+        ev["a"] = out7(a)
+        b = P.neutron_scattering(fb, density=t["density"], wavelength=lam)
     elif rel in ("cell", "regroup", "permute"):
         h = build(t["variant"], T)
         b = call(h, wavelength=lam)
